@@ -46,15 +46,16 @@ PROPS["C06"] = {
 
 PROPS["C02"] = {
     "pkg": "sess", "engine": "seqsim", "env": {"SIM_PROP": "C02"},
-    "legs": ["passive", "passive", "active"],
-    "runs": {"quick": 12000, "thorough": 600000},
-    "budget": {"quick": 150, "thorough": 1800},
-    "rule": "one run = one adversary schedule (10-80 actions) over 2-4 real Session pairs (A-B pairs incl. role swaps, unrelated C-D): deliver/drop/reorder/replay/cross-feed/reflect any byte string ever emitted, 8 kinds of mutation, clock jumps across expiry; leg active adds the protocol-speaking attacker of C03; "
-            "non-trivial = at least one fault fired and at least one session became ready; distinct = distinct event traces",
-    "components": SEQ,
-    "level_text": "seeded exploration of adversary action sequences against real Sessions; oracles after every delivery (authentic, from the dynamically paired peer session, at most once, unmodified) and over all emitted bytes at the end (counter uniqueness per session, no plaintext on the wire)",
-    "level_note": "trusted: harness transport/adversary/oracle (sim/sess), seeded crypto/rand; AEAD, X25519, Ed25519 assumed sound; key identity approximated by session identity for counter uniqueness",
-    "assumptions": ["session leg only: the channel-level clauses (at most once across rotation, concurrent Send) are exercised by the channel simulation of C05/C07 where C02's oracles are also attached"],
+    "legs": ["passive", "passive", "passive", "active", "active", "chan-replay", "chan-restart"],
+    "runs": {"quick": 7000, "thorough": 400000},
+    "budget": {"quick": 220, "thorough": 2400},
+    "rule": "session legs (passive, active): one run = one adversary schedule (10-80 actions) over 2-4 real Session pairs (A-B pairs incl. role swaps, unrelated C-D): deliver/drop/reorder/replay/cross-feed/reflect any byte string ever emitted, 8 kinds of mutation, clock jumps across expiry; leg active adds the protocol-speaking attacker of C03; "
+            "channel legs (chan-replay, chan-restart): one run = two real p2pke.Channels under the parking scheduler with 1-3 concurrent senders per side over several rekey periods (and a restart of one side), on a network that loses, duplicates, reorders and corrupts, with a replayer re-injecting any datagram ever sent (to its destination, reflected to its sender, or after its session was rotated out); "
+            "non-trivial = at least one fault fired and at least one session became ready / one plaintext was delivered; distinct = distinct event traces",
+    "components": {"real": ["p/p2pke Session and Channel incl. timers (all of it), f/x509, flynn/noise, x/crypto primitives"], "stub": ["wire and adversary (harness)", "clock (`now` arguments in the session legs; synctest fake clock in the channel legs)", "goroutine scheduler (channel legs)", "crypto/rand (seeded ChaCha8)"], "tier": "A"},
+    "level_text": "seeded exploration of adversary action sequences against real Sessions and real Channels; oracles after every delivery (authentic: given to Send by the holder of the key the receiver reports, from the dynamically paired peer session, at most once per session / per channel object, unmodified) and over all emitted bytes at the end (counter uniqueness per session, no plaintext on the wire, sender buffers untouched)",
+    "level_note": "trusted: harness transport/adversary/oracle (sim/sess, sim/chn), seeded crypto/rand; AEAD, X25519, Ed25519 assumed sound; key identity approximated by session identity for counter uniqueness",
+    "assumptions": [],
 }
 PROPS["C03"] = {
     "pkg": "sess", "engine": "seqsim", "env": {"SIM_PROP": "C03"},
